@@ -20,7 +20,6 @@ import (
 	"fmt"
 	"io"
 	"sort"
-	"strings"
 
 	csserrors "github.com/9elements/converged-security-suite/v2/pkg/errors"
 	"github.com/9elements/converged-security-suite/v2/pkg/registers"
@@ -606,17 +605,22 @@ func msrCase(c *gal.Ctx, i int) {
 	default:
 		list = []error{rerr}
 	}
-	for _, e := range list {
-		msg := "<nil>"
-		if e != nil {
-			msg = e.Error()
-		}
-		const pre, mid = "failed to fetch MSR register ", ", err: "
-		id := msg
-		if strings.HasPrefix(msg, pre) {
-			if k := strings.LastIndex(msg, mid); k >= len(pre) {
-				id = msg[len(pre):k]
+	// the register an error entry is about: the i-th entry belongs to the i-th failing read, in the
+	// order in which the code performed the reads (nothing is read out of the message text)
+	var failedInOrder []string
+	for _, a := range m.trace {
+		if m.fail[a] {
+			for _, d := range msrDoc {
+				if d.addr == a {
+					failedInOrder = append(failedInOrder, d.id)
+				}
 			}
+		}
+	}
+	for i := range list {
+		id := "<no failing read>"
+		if i < len(failedInOrder) {
+			id = failedInOrder[i]
 		}
 		errLits = append(errLits, gal.Str2(id))
 	}
